@@ -6,22 +6,28 @@
 // `unknown` entry, which makes the obligations fail (never silently skipped).
 //
 // Facts:
-//   putShifts   for ToBytesX / SetBytesX : the list of (byte index, right shift) of `buf[i] = byte(v >> s)`
-//   getTerms    for ToX (readers)        : after symbolic evaluation of the straight-line body, the list of
-//                                          (byte index, left shift, signExtendedByte) summands and a final
-//                                          arithmetic right shift (ToInt3)
-//   decimalW    WriteDecimal switch      : (lo, hi, length byte, payload width) per case, in order
-//   decimalR    ReadDecimal switch       : (length byte, payload width) per case, default width
-//   blobW/blobR thresholds and markers of WriteBlob / ReadBlob
-//   arrays      per WriteXArray/ReadXArray: count writer/reader and element writer/reader names
-//   written     how WriteBytes / WriteByte / Write update the `written` counter
+//
+//	putShifts   for ToBytesX / SetBytesX : the list of (byte index, right shift) of `buf[i] = byte(v >> s)`
+//	getTerms    for ToX (readers)        : after symbolic evaluation of the straight-line body, the list of
+//	                                       (byte index, left shift, signExtendedByte) summands and a final
+//	                                       arithmetic right shift (ToInt3)
+//	decimalW    WriteDecimal switch      : (lo, hi, length byte, payload width) per case, in order
+//	decimalR    ReadDecimal switch       : (length byte, payload width) per case, default width
+//	blobW/blobR thresholds and markers of WriteBlob / ReadBlob
+//	arrays      per WriteXArray/ReadXArray: count writer/reader and element writer/reader names
+//	written     how WriteBytes / WriteByte / Write update the `written` counter
+//	primReaders per ReadX of one fixed-width field: (bytes asked of ReadBytes, the expression returned)
+//	primWriters per WriteX of one fixed-width field: the expression handed to WriteBytes
+//	readBytes   the statements of ReadBytes (buffer guard, connection loop) as normalised source text
 package main
 
 import (
+	"bytes"
 	"flag"
 	"fmt"
 	"go/ast"
 	"go/parser"
+	"go/printer"
 	"go/token"
 	"os"
 	"path/filepath"
@@ -625,6 +631,108 @@ func callSeq(fd *ast.FuncDecl) string {
 	return "[" + strings.Join(quoteAll(out), ", ") + "]"
 }
 
+// src prints a node as one line of normalised source text.
+func src(n ast.Node) string {
+	var b bytes.Buffer
+	printer.Fprint(&b, fset, n)
+	return strings.Join(strings.Fields(b.String()), " ")
+}
+
+// primReader recognises `if b := in.ReadBytes(K); b != nil { return E }; return Z` and yields (K, E).
+func primReader(fd *ast.FuncDecl) (string, bool) {
+	if fd.Body == nil || len(fd.Body.List) != 2 {
+		return "", false
+	}
+	ifs, ok := fd.Body.List[0].(*ast.IfStmt)
+	if !ok || ifs.Init == nil || ifs.Else != nil || len(ifs.Body.List) != 1 {
+		return "", false
+	}
+	as, ok := ifs.Init.(*ast.AssignStmt)
+	if !ok || len(as.Rhs) != 1 || len(as.Lhs) != 1 {
+		return "", false
+	}
+	call, ok := as.Rhs[0].(*ast.CallExpr)
+	if !ok || len(call.Args) != 1 || src(call.Fun) != "in.ReadBytes" {
+		return "", false
+	}
+	k, ok := intOf(call.Args[0], nil)
+	if !ok || src(ifs.Cond) != src(as.Lhs[0])+" != nil" {
+		return "", false
+	}
+	ret, ok := ifs.Body.List[0].(*ast.ReturnStmt)
+	if !ok || len(ret.Results) != 1 {
+		return "", false
+	}
+	if _, ok := fd.Body.List[1].(*ast.ReturnStmt); !ok {
+		return "", false
+	}
+	return fmt.Sprintf("(%s, %q)", k, src(ret.Results[0])), true
+}
+
+// primWriter recognises `out.WriteBytes(E); return out` and yields E.
+func primWriter(fd *ast.FuncDecl) (string, bool) {
+	if fd.Body == nil || len(fd.Body.List) != 2 {
+		return "", false
+	}
+	es, ok := fd.Body.List[0].(*ast.ExprStmt)
+	if !ok {
+		return "", false
+	}
+	call, ok := es.X.(*ast.CallExpr)
+	if !ok || len(call.Args) != 1 || src(call.Fun) != "out.WriteBytes" {
+		return "", false
+	}
+	if src(fd.Body.List[1]) != "return out" {
+		return "", false
+	}
+	return fmt.Sprintf("%q", src(call.Args[0])), true
+}
+
+// stmts lists the statements of a body, nested ones included, as normalised text: a compound
+// statement contributes its header (`if c`, `for c`, `else`) followed by its parts.
+func stmts(b *ast.BlockStmt) []string {
+	var out []string
+	var walk func(s ast.Stmt)
+	walk = func(s ast.Stmt) {
+		switch x := s.(type) {
+		case *ast.BlockStmt:
+			for _, y := range x.List {
+				walk(y)
+			}
+		case *ast.IfStmt:
+			h := "if "
+			if x.Init != nil {
+				h += src(x.Init) + "; "
+			}
+			out = append(out, h+src(x.Cond)+" {")
+			walk(x.Body)
+			if x.Else != nil {
+				out = append(out, "} else {")
+				walk(x.Else)
+			}
+			out = append(out, "}")
+		case *ast.ForStmt:
+			h := "for "
+			if x.Init != nil || x.Post != nil {
+				h += src(x.Init) + "; " + src(x.Cond) + "; " + src(x.Post)
+			} else if x.Cond != nil {
+				h += src(x.Cond)
+			}
+			out = append(out, h+" {")
+			walk(x.Body)
+			out = append(out, "}")
+		default:
+			t := src(s)
+			if strings.HasPrefix(t, "panic(") {
+				t = "panic"
+			}
+			out = append(out, t)
+		}
+	}
+	walk(b)
+	return out
+}
+
 func main() {
 	repo := flag.String("repo", "/repo", "")
 	outp := flag.String("out", "", "")
@@ -717,6 +825,46 @@ func main() {
 	}
 	b.WriteString(strings.Join(cs, ",\n"))
 	b.WriteString("\n]\n\n")
+	b.WriteString("/-- fixed-width readers: bytes asked of ReadBytes and the expression returned; `none` = another shape -/\ndef primReaders : List (String × Option (Nat × String)) := [\n")
+	var pr []string
+	for n, fd := range fsi {
+		switch n {
+		case "m.ReadBool", "m.ReadByte", "m.ReadShort", "m.ReadUShort", "m.ReadShortLittle", "m.ReadUnsignedShort", "m.ReadUnsignedShortLittle",
+			"m.ReadInt3", "m.ReadInt", "m.ReadUnsignedInt", "m.ReadIntLittle", "m.ReadUintLittle", "m.ReadLong5", "m.ReadLong", "m.ReadFloat", "m.ReadDouble":
+			v, ok := primReader(fd)
+			if ok {
+				v = "some " + v
+			} else {
+				v = "none"
+			}
+			pr = append(pr, fmt.Sprintf("  (%q, %s)", n[2:], v))
+		}
+	}
+	sort.Strings(pr)
+	b.WriteString(strings.Join(pr, ",\n"))
+	b.WriteString("\n]\n\n")
+	b.WriteString("/-- fixed-width writers: the expression handed to WriteBytes; `none` = another shape -/\ndef primWriters : List (String × Option String) := [\n")
+	var pw []string
+	for n, fd := range fso {
+		switch n {
+		case "m.WriteBool", "m.WriteShort", "m.WriteUShort", "m.WriteInt3", "m.WriteInt", "m.WriteLong5", "m.WriteLong", "m.WriteFloat", "m.WriteDouble":
+			v, ok := primWriter(fd)
+			if ok {
+				v = "some " + v
+			} else {
+				v = "none"
+			}
+			pw = append(pw, fmt.Sprintf("  (%q, %s)", n[2:], v))
+		}
+	}
+	sort.Strings(pw)
+	b.WriteString(strings.Join(pw, ",\n"))
+	b.WriteString("\n]\n\n")
+	rb := []string{"<missing>"}
+	if fd, ok := fsi["m.ReadBytes"]; ok && fd.Body != nil {
+		rb = stmts(fd.Body)
+	}
+	fmt.Fprintf(&b, "/-- the statements of ReadBytes, nested ones included, as normalised source text -/\ndef readBytes : List String := [\n  %s\n]\n\n", strings.Join(quoteAll(rb), ",\n  "))
 	b.WriteString("/-- how the primitive writers update `written` -/\ndef written : List (String × List String) := [\n")
 	var wr []string
 	for _, n := range []string{"m.WriteBytes", "m.WriteByte", "m.Write"} {
